@@ -18,7 +18,9 @@ out_path = V + '/seeded/MATRIX.json'
 res = json.load(open(out_path)) if os.path.exists(out_path) else {}
 env = dict(os.environ, VERIF_REPO=repo, VERIF_EVIDENCE_DIR=work + '/evidence')
 head = subprocess.check_output('git -C /repo rev-parse --short HEAD', shell=True).decode().strip()
+done_here = set()
 for s in seeds:
+    done_here.add(s)
     patch = '%s/seeded/%s/patch.diff' % (V, s)
     subprocess.check_call('cd %s && git checkout -q -- . && git clean -fdq' % repo, shell=True)
     r = subprocess.run('cd %s && git apply %s' % (repo, patch), shell=True, stdout=subprocess.PIPE, stderr=subprocess.STDOUT)
@@ -43,9 +45,13 @@ for s in seeds:
             if row[c]['violations']: old['detail'][c] = row[c]['violations']
         old['detected_by'].sort(); old['broken'].sort()
         print(s, 'partial', {c: row[c]['rc'] for c in checks}, flush=True)
-        json.dump(res, open(out_path, 'w'), indent=1, sort_keys=True)
+        cur = json.load(open(out_path)) if os.path.exists(out_path) else {}
+        cur.update({k: v for k, v in res.items() if k in done_here})
+        json.dump(cur, open(out_path, 'w'), indent=1, sort_keys=True)
         continue
     res[s] = {'repo_head': head, 'detected_by': sorted(c for c, v in row.items() if v['rc'] == 1), 'broken': sorted(c for c, v in row.items() if v['rc'] not in (0, 1)), 'detail': {c: v['violations'] for c, v in row.items() if v['violations']}}
     print(s, 'detected by', res[s]['detected_by'], 'broken', res[s]['broken'], flush=True)
-    json.dump(res, open(out_path, 'w'), indent=1, sort_keys=True)
+    cur = json.load(open(out_path)) if os.path.exists(out_path) else {}
+    cur.update({k: v for k, v in res.items() if k in done_here})
+    json.dump(cur, open(out_path, 'w'), indent=1, sort_keys=True)
 shutil.rmtree(work, ignore_errors=True)
